@@ -57,6 +57,14 @@ CFGS = {
     "ksa": ("ksa", None, False),
     "uhf-adaptive": ("adaptive", None, True),
 }
+# leaf-only configurations (cold solves; not part of the breadth-first alphabet): the SP2 tolerance axis, including
+# requests outside the window [1e-7, 1e-3] the float64 purification supports (the package clamps them into it)
+SP2_WINDOW = (1e-7, 1e-3)
+CFGS_LEAF = {f"adaptive/sp2@{t:g}": ("adaptive", t, False) for t in (1e-2, 1e-3, 1e-5, 1e-8, 1e-10)}
+CFGS_LEAF.update({f"fixed0.3/sp2@{t:g}": ("fixed0.3", t, False) for t in (1e-3, 1e-10)})
+ALLCFG = dict(CFGS, **CFGS_LEAF)
+# unrestricted singlet solved inside a batch with a molecule of another composition (row 0 = the molecule, unpadded)
+MATE = {"H2O": "HF", "NH3": "H2O", "CH4": "NH3", "H2CO": "H2O", "HCN": "HF", "CH3OH": "H2CO"}
 SEQ_EPS = 1e-8
 EPS_AXIS = [1e-4, 1e-6, 1e-8, 1e-10]
 REF_EPS = 1e-11
@@ -82,7 +90,7 @@ def geometry(name, k, seed):
 
 
 def _params(cfg, eps):
-    key, s2, uhf = CFGS[cfg]
+    key, s2, uhf = ALLCFG[cfg]
     return sp.make_params("AM1", "adaptive", eps, sp2=s2, uhf=uhf, scf_converger=copy.deepcopy(SOLVER_OPT[key]))
 
 
@@ -102,13 +110,16 @@ def solve(task):
     import torch
 
     cfg = task["cfg"]
-    uhf = CFGS[cfg][2] if cfg != "ref" else False
+    uhf = ALLCFG[cfg][2] if cfg != "ref" else False
     if cfg == "ref":
         params = sp.make_params("AM1", "adaptive", REF_EPS)
     else:
         params = _params(cfg, task["eps"])
     t0 = time.process_time()
-    molecule, es = sp.build(geometry(task["mol"], task["g"], task["seed"]), params)
+    geoms = geometry(task["mol"], task["g"], task["seed"])
+    if task.get("mate"):
+        geoms = [geoms, geometry(task["mate"], task["g"], task["seed"])]
+    molecule, es = sp.build(geoms, params)
     molecule.verbose = False
     P = _to_layout(task.get("P"), uhf)
     if P is not None and task.get("perturb"):
@@ -126,6 +137,8 @@ def solve(task):
         tb = traceback.extract_tb(e.__traceback__)[-1]
         return {"status": "exception", "exc": type(e).__name__, "msg": str(e)[:160], "where": f"{tb.filename.split('/')[-1]}:{tb.name}"}
     o = sp.observe(molecule, es, ["Etot", "force", "q", "e_mo", "e_gap", "dm"])
+    if task.get("mate"):
+        o = {k: (np.asarray(v)[:1] if v is not None else None) for k, v in o.items()}  # row 0 is the largest: no padding
     out.update(o)
     out["nc"] = bool(np.asarray(o["notconverged"]).any())
     out["t"] = time.process_time() - t0
@@ -140,9 +153,10 @@ def _emo(e):
 def compare(task, out, ref):
     """-> list of (observable, error, tolerance); also fills ratios"""
     cfg = task["cfg"]
-    key, s2, uhf = CFGS[cfg]
+    key, s2, uhf = ALLCFG[cfg]
     a = {"fixed0.3": 0.3}.get(key, 0.0)
-    t = max(task["eps"], s2 or 0.0) / (1.0 - a)
+    s2_eff = min(max(s2, SP2_WINDOW[0]), SP2_WINDOW[1]) if s2 else 0.0
+    t = max(task["eps"], s2_eff) / (1.0 - a)
     bad = []
     ratios = {}
     for name in ("Etot", "force", "q", "e_mo"):
@@ -166,18 +180,18 @@ def compare(task, out, ref):
 
 
 def _desc(task, kind, **more):
-    key, s2, uhf = CFGS[task["cfg"]]
+    key, s2, uhf = ALLCFG[task["cfg"]]
     d = {
         "kind": kind, "mol": task["mol"], "g": task["g"], "cfg": task["cfg"], "solver": key, "sp2": s2 is not None, "uhf": uhf,
         "eps": task["eps"], "start": task["start"], "depth": len(task["prov"]), "prev_cfg": task["prov"][-1] if task["prov"] else "none",
-        "provenance": ">".join(task["prov"]),
+        "provenance": ">".join(task["prov"]), "mate": task.get("mate") or "none", "sp2_tol": s2 or 0.0,
     }  # fmt: skip
     d.update(more)
     return d
 
 
 def _key(task):
-    return f"{task['mol']}|g{task['g']}|{'>'.join(task['prov'])}=>{task['cfg']}|{task['start']}|eps={task['eps']:g}"
+    return f"{task['mol']}{'+' + task['mate'] if task.get('mate') else ''}|g{task['g']}|{'>'.join(task['prov'])}=>{task['cfg']}|{task['start']}|eps={task['eps']:g}"
 
 
 def _replay_payload(task):
@@ -214,7 +228,7 @@ def _judge(chk, task, out, refs, margins, tally):
     ref = refs[(task["mol"], task["g"])]
     bad, ratios = compare(task, out, ref)
     chk.traces += 1
-    if CFGS[task["cfg"]][0] != "ksa":
+    if ALLCFG[task["cfg"]][0] != "ksa":
         for n, v in ratios.items():
             if v > margins.get(n, 0.0):
                 margins[n] = v
@@ -289,6 +303,12 @@ def run(chk, tier, seed):
             for e in EPS_AXIS:
                 if e != SEQ_EPS:
                     tasks.append(dict(mol=m, g=0, cfg=c, eps=e, seed=seed, prov=[], start="cold"))
+        # the SP2 tolerance axis (inside and outside the supported window) and the unrestricted singlet inside a batch
+        for g in (0, depth):
+            for c in CFGS_LEAF:
+                tasks.append(dict(mol=m, g=g, cfg=c, eps=SEQ_EPS, seed=seed, prov=[], start="cold"))
+            for c in ("uhf-adaptive", "adaptive", "pulay/sp2"):
+                tasks.append(dict(mol=m, g=g, cfg=c, eps=SEQ_EPS, seed=seed, prov=[], start="cold", mate=MATE[m]))
     planned += len(tasks)
     outs = pmap(solve, tasks, chunk=8, timeout=300, progress="C04 cold/eps")
     for t, o in zip(tasks, outs):
